@@ -744,18 +744,21 @@ class Translator:
         return f'&({ty.c}){{{e}}}'
 
     def pass_args(self, params, args, cx):
-        out = []
+        out = []; slices = []
         for p, a in zip(params, args):
             pt = self.ctype(self.qt(p))
             if pt.cls == 'empty': continue
             if a.get('kind') == 'CXXDefaultArgExpr':
                 raise Unsupported(f'default argument in call from {cx.cname}')
+            k0 = len(cx.pre)
             if pt.ref:
                 out.append(self.addr_of(a, cx))
             else:
                 out.append(self.hoist_throwing(self.value_of(a, cx, pt), pt, cx))
+            slices.append((k0, len(cx.pre)))
         if len(args) > len(params):
             raise Unsupported(f'variadic call from {cx.cname}')
+        self._arg_slices = slices      # statements hoisted by each argument (consumed at once by unsequenced_args)
         return out
 
     def hoist_throwing(self, v, pt, cx):
@@ -788,28 +791,41 @@ class Translator:
     def unsequenced_args(self, params, a, cx):
         """C++ leaves the evaluation order of function arguments (including the initialisation of by-value parameters)
         unspecified.  When one argument moves from an object that another argument reads, both orders are emitted
-        under a nondeterministic choice (g++ evaluates right to left, clang++ left to right)."""
+        under a nondeterministic choice (g++ evaluates right to left, clang++ left to right).  The statements an
+        argument hoisted (temporaries, copies of by-value parameters of a nested call) belong to that argument."""
         ps = [p for p in params if self.ctype(self.qt(p)).cls != 'empty']
+        slices = getattr(self, '_arg_slices', None); self._arg_slices = None
         if len(a) < 2 or len(ps) != len(a): return a
+        if not slices or len(slices) != len(a) or any(slices[i][1] != slices[i + 1][0] for i in range(len(a) - 1)) or slices[-1][1] != len(cx.pre):
+            slices = [(len(cx.pre), len(cx.pre))] * len(a)
+        texts = [x + ' ' + ' '.join(cx.pre[k0:k1]) for x, (k0, k1) in zip(a, slices)]
         hazard = False
-        for i, x in enumerate(a):
-            for m in re.finditer(r'\w+_MOVE\(&(\w+)\)', x):
+        for i, x in enumerate(texts):
+            for m in re.finditer(r'\w+_MOVE\(&?(\w+)\)', x):
                 v = m.group(1)
-                if any(j != i and re.search(r'\b' + re.escape(v) + r'\b', y) for j, y in enumerate(a)): hazard = True
+                if any(j != i and re.search(r'\b' + re.escape(v) + r'\b', y) for j, y in enumerate(texts)): hazard = True
         if not hazard: return a
-        decls = []; assigns = []; out = []
-        for p, x in zip(ps, a):
+        groups = [cx.pre[k0:k1] for (k0, k1) in slices]
+        del cx.pre[slices[0][0]:]
+        decls = []; out = []
+        for p, x, g in zip(ps, a, groups):
             pt = self.ctype(self.qt(p)); t = cx.tmp('u')
             m = re.match(r'^&\(([\w ]+)\)\{(.*)\}$', x)
             if m:       # reference bound to a temporary: the temporary itself is hoisted
-                decls.append(f'{m.group(1)} {t};'); assigns.append(f'{t} = {m.group(2)};'); out.append(f'&{t}')
+                decls.append(f'{m.group(1)} {t};'); g.append(f'{t} = ({m.group(1)}){{{m.group(2)}}};'); out.append(f'&{t}')
             elif pt.ref:
-                decls.append(f'{pt.c} *{t};'); assigns.append(f'{t} = {x};'); out.append(t)
+                decls.append(f'{pt.c} *{t};'); g.append(f'{t} = {x};'); out.append(t)
             else:
-                decls.append(f'{pt.c} {t};'); assigns.append(f'{t} = {x};'); out.append(t)
+                decls.append(f'{pt.c} {t};'); g.append(f'{t} = {x};'); out.append(t)
+        o = cx.tmp('order')
         cx.pre.append('/* unsequenced argument evaluation (one argument moves from an object another one reads): both orders */')
         cx.pre.extend(decls)
-        cx.pre.append('if (nondet_bool()) { ' + ' '.join(assigns) + ' } else { ' + ' '.join(reversed(assigns)) + ' }')
+        cx.pre.append(f'_Bool {o} = nondet_bool();')
+        cx.pre.append(f'if ({o}) {{')
+        for g in groups: cx.pre.extend('  ' + l for l in g)
+        cx.pre.append('} else {')
+        for g in reversed(groups): cx.pre.extend('  ' + l for l in g)
+        cx.pre.append('}')
         self.notes.append(f'{cx.cname}: call with unsequenced move/read of the same object; both argument evaluation orders are explored')
         return out
 
@@ -1439,7 +1455,8 @@ class Translator:
         pre = cx.pre; cx.pre = []
         for p in pre:
             cx.emit(p)
-            if '(' in p and not p.lstrip().startswith('/*'): self.exc_edge(cx)      # a hoisted temporary whose initialiser may raise
+            q = p.lstrip()
+            if '(' in q and not q.startswith('/*') and not re.match(r'(_Bool __order\d+ = nondet_bool\(\);|if \(__order\d+\) \{)$', q): self.exc_edge(cx)      # a hoisted temporary whose initialiser may raise
 
     def S_NullStmt(self, n, cx): pass
 
